@@ -267,6 +267,18 @@ func TestWithEqualsCallSite(t *testing.T) {
 		if rapid.IntRange(0, 3).Draw(t, "ansiInWith") == 0 {
 			a = append(a, lm.Node{Key: "tag", Kind: lm.KAnsi, S: lm.SmallString().Draw(t, "ansi")})
 		}
+		// a logger that carries something big (a request body, a stack, a blob) and then more: sizes around the buffer
+		// sizes a handler may pool or pre-size, in the With under test or in an earlier one
+		if big := rapid.IntRange(0, 7).Draw(t, "bigAttribute"); big < 2 {
+			n := rapid.SampledFrom([]int{1000, 4090, 8190, 16300, 16384, 16400, 17000, 33000, 66000, 140000}).Draw(t, "bigSize")
+			node := lm.Node{Key: "body", Kind: lm.KString, S: strings.Repeat(rapid.SampledFrom([]string{"x", "ab ", "é", "\"", "\n"}).Draw(t, "bigUnit"), n)}
+			if big == 0 {
+				a = append([]lm.Node{node}, a...)
+			} else {
+				ctxChain = append(append([]lm.Step{}, ctxChain...), lm.Step{With: []lm.Node{node}})
+			}
+			ev.Label("withEq:big_attribute_then_more")
+		}
 		level := rapid.SampledFrom(lm.Levels).Draw(t, "level")
 		msg := lm.SmallString().Draw(t, "msg")
 		form := rapid.IntRange(0, 3).Draw(t, "form") // only entry points that take attributes
